@@ -8,6 +8,12 @@ import (
 
 type WaitGroup = sync.WaitGroup
 type Once = sync.Once
+type Cond = sync.Cond
+type Map = sync.Map
+type Pool = sync.Pool
+type Locker = sync.Locker
+
+func NewCond(l Locker) *Cond { return sync.NewCond(l) }
 
 type Mutex struct {
 	real sync.Mutex
@@ -42,6 +48,32 @@ func (m *Mutex) Unlock() {
 	s.Mu().Lock()
 	m.held = false
 	s.Mu().Unlock()
+	yieldAfterRelease(s)
+}
+
+// yieldAfterRelease makes the release of a lock a scheduling point too (as in
+// CHESS): code that keeps working on shared state after releasing the lock
+// (an event delivered outside the lock, a stale value used after re-locking)
+// can then be overtaken exactly there.
+func yieldAfterRelease(s *vsched.Sched) {
+	if !s.IsSched() && s.Known() {
+		s.Point(vsched.KYield, nil, "")
+	}
+}
+
+// TryLock is provided for completeness.
+func (m *Mutex) TryLock() bool {
+	s := vsched.Cur()
+	if s == nil {
+		return m.real.TryLock()
+	}
+	s.Mu().Lock()
+	defer s.Mu().Unlock()
+	if m.held {
+		return false
+	}
+	m.held = true
+	return true
 }
 
 type RWMutex struct {
@@ -99,6 +131,7 @@ func (m *RWMutex) Unlock() {
 	s.Mu().Lock()
 	m.w = false
 	s.Mu().Unlock()
+	yieldAfterRelease(s)
 }
 func (m *RWMutex) RUnlock() {
 	s := vsched.Cur()
@@ -109,4 +142,5 @@ func (m *RWMutex) RUnlock() {
 	s.Mu().Lock()
 	m.readers--
 	s.Mu().Unlock()
+	yieldAfterRelease(s)
 }
